@@ -112,6 +112,32 @@ def h_prefix_batch(eng, items):
         eng.prove(Eq(ureg.Quantity(fb, bu).to_root_units().magnitude, pval * info.num), f"prefix-get_base_units:{text}")
 
 
+def h_prefix_case_insensitive(eng, mode):
+    """case-insensitive lookup folds the case of the *unit* name only: prefix symbols that differ
+    by case alone (M/m, P/p, Z/z, Y/y, R/r, Q/q) keep their own values"""
+    d = refdefs.default()
+    ureg = regs.default(eng, case_sensitive=False) if mode == "registry-option" else regs.default(eng)
+    kw = {} if mode == "registry-option" else {"case_sensitive": False}
+    x = eng.real("x")
+    twins = [p for p in d.prefixes if len(p) == 1 and p.swapcase() in d.prefixes and p != p.swapcase()]
+    for p in sorted(twins):
+        pval = d.prefixes[p][1]
+        for usp, canon in (("W", "watt"), ("Hz", "hertz"), ("J", "joule"), ("watt", "watt"), ("WATT", "watt"), ("hz", "hertz"), ("Joule", "joule"), ("N", "newton"), ("newtons", "newton")):
+            text = p + usp
+            if text in d.spellings or text.lower() in {s_.lower() for s_ in d.spellings}:
+                continue  # some defined name matches when case is ignored: C08's subject
+            try:
+                units = ureg.parse_units(text, **kw)
+            except Exception as ex:  # noqa: BLE001
+                eng.fail(f"ci-prefix:{mode}:{text}:raises-{type(ex).__name__}", stop=False)
+                continue
+            r = ureg.Quantity(x, units).to(canon)
+            eng.prove(Eq(r.magnitude, x * pval), f"ci-prefix:{mode}:{text}:factor")
+            if mode == "registry-option":
+                eng.prove(Eq(ureg.Quantity(x, text).to(canon).magnitude, x * pval), f"ci-prefix:{mode}:{text}:Quantity")
+                eng.prove(Eq(ureg.convert(x, text, canon), x * pval), f"ci-prefix:{mode}:{text}:convert")
+
+
 def h_pair(eng, u, v, w):
     ureg = regs.default(eng)
     inf = covers.infos()
@@ -304,6 +330,45 @@ def h_other_numeric_types(eng, pairs):
         eng.prove(abs(Fraction(ri.magnitude) / (3 * exact) - 1) <= Fraction(1, 10**14), f"int-magnitude:{u}->{v}")
 
 
+def h_inplace_narrow_arrays(eng):
+    """in-place conversion of an array whose dtype cannot hold the result (integers, uint8): either
+    refused (the array and the unit stay as they were) or numerically the converted values --
+    never silently truncated or wrapped"""
+    import numpy as np
+
+    import pint
+
+    fl = regs.float_default()
+    forced = getattr(h_inplace_narrow_arrays, "_forced", None)
+    if forced is None:
+        forced = h_inplace_narrow_arrays._forced = pint.UnitRegistry(force_ndarray=True)
+    rows = [
+        (fl, np.array([1500, 2500, 999]), "meter", "kilometer", 1e-3),
+        (fl, np.array([1, 2, 3]), "kilometer", "meter", 1e3),
+        (fl, np.array([200, 17], dtype=np.uint8), "kilometer", "meter", 1e3),
+        (fl, np.array([7, 9], dtype=np.int16), "inch", "centimeter", 2.54),
+        (fl, np.array([1.5, 2.5], dtype=np.float32), "mile", "millimeter", 1609344.0),
+        (forced, 1500, "meter", "kilometer", 1e-3),
+        (forced, 3, "hour", "day", 1 / 24),
+    ]
+    for reg, data, u, v, k in rows:
+        for form in ("ito", "ito_base_units", "ito_root_units"):
+            if form != "ito" and (u, v) not in (("kilometer", "meter"), ("inch", "centimeter")):
+                continue
+            q = reg.Quantity(data.copy() if hasattr(data, "copy") else data, u)
+            before = np.array(q.magnitude, dtype=float, copy=True)
+            want = np.asarray(reg.Quantity(np.asarray(data, dtype=float), u).to(v if form == "ito" else "meter").magnitude, dtype=float)
+            try:
+                q.ito(v) if form == "ito" else getattr(q, form)()
+            except Exception:  # noqa: BLE001
+                same = bool(np.all(np.asarray(q.magnitude, dtype=float) == before)) and q.units == reg.Unit(u)
+                eng.prove(same, f"narrow-array:{form}:{np.asarray(data).dtype}:{u}->{v}:refused-leaves-quantity")
+                continue
+            got = np.asarray(q.magnitude, dtype=float)
+            rtol = 1e-6 if np.asarray(data).dtype == np.float32 else 1e-12
+            eng.prove(bool(np.allclose(got, want, rtol=rtol, atol=0)), f"narrow-array:{form}:{np.asarray(data).dtype}:{u}->{v}:values-not-truncated")
+
+
 TEMPLATES = [
     # (name, list of (unit, exponents over earlier units), queries)
     ("chain3", [("u1", {"b1": 1}), ("u2", {"u1": 1}), ("u3", {"u2": 1})]),
@@ -412,6 +477,8 @@ def cases(tier, seed):
     for i in range(0, len(items), 12):
         chunk = items[i : i + 12]
         out.append(Case("H02.b", f"{i:05d}:{''.join(chunk[0])}", M, "h_prefix_batch", {"items": chunk}, validate=1))
+    for mode in ("registry-option", "per-call"):
+        out.append(Case("H02.b", f"case-insensitive-prefix-twins:{mode}", M, "h_prefix_case_insensitive", {"mode": mode}, validate=1))
     # H02.c pairs
     pairs = covers.all_same_dim_pairs() if big else covers.same_dim_pairs(seed, 300)
     cl = covers.classes(kinds=("base", "mult", "dimensionless"))
@@ -452,6 +519,7 @@ def cases(tier, seed):
     exact_pairs = [(u, v) for u, v in pairs if not inf[u].inexact and not inf[v].inexact]
     for i in range(0, len(exact_pairs), 60):
         out.append(Case("H02.f", f"{i:05d}", M, "h_other_numeric_types", {"pairs": exact_pairs[i : i + 60]}, kind="conc"))
+    out.append(Case("H02.f", "inplace-narrow-arrays", M, "h_inplace_narrow_arrays", {}, kind="conc"))
     # H02.d generated registries with symbolic scales
     for t in TEMPLATES:
         out.append(Case("H02.d", t[0], M, "h_generated", {"tname": t[0]}, weight=5.0))
